@@ -36,7 +36,7 @@ STUBS = ["AES-CTR -> XOR with a native z3 uninterpreted function KS(key, counter
          "RFC 3394 key wrap -> ideal invertible cipher stub; random_bytes -> fresh symbolic bytes",
          "crcmod -> bit-exact BV model"]
 MUST_REACH = ["otfad\\..*", "blob\\..*", "bee\\..*", "beeimg\\..*", "iee\\..*", "ieeblob\\..*"]
-OPTS = {"quick": {"case_timeout_s": 1200, "max_paths": 4000}, "thorough": {"case_timeout_s": 2400, "max_paths": 40000}}
+OPTS = {"quick": {"case_timeout_s": 1200, "max_paths": 4000, "query_timeout_ms": 180000}, "thorough": {"case_timeout_s": 2400, "max_paths": 40000}}
 K = 0x400
 
 
